@@ -24,6 +24,11 @@ category True) - the dictionary page is of physical type BOOLEAN - over all row 
 tuples (v1 / v2 pages, 1..3 pages, codecs, has_nulls, ...), read back twice: read='default' (as categorical, the
 contract above) and read='categories=[]' (to_pandas(categories=[]): the column de-categorised - every cell must be
 the boolean label of the written cell or null where the written cell is null; dtype bool / boolean / object).
+
+Additional class (dtypes `<str|string|object_str|bytes|cat[str]|cat[str,unsorted]>+nul`): text cells (and bytes
+cells, and the LABELS of a categorical) holding NUL characters at the end (one, several, only NULs), at the start,
+in the middle, next to non-ASCII, empty cells and leading / trailing blanks - 'ab' and 'ab\x00' are different cells
+and different labels - over every (rows, nulls) shape x every option tuple; compared exactly, cell by cell.
 """
 import os
 import shutil
@@ -49,7 +54,9 @@ RULE = ("single-column frames over {n_dtypes} dtypes of the quantifier x row cou
         "(dtype,rows,nulls) shape is used; plus multi-column mixed frames x every option tuple and frames with "
         "non-range/named/str/datetime/multi/offset-range indexes x write_index values; plus categoricals whose CATEGORIES "
         "are booleans (cat[bool] / categories [True, False] / ordered / single category) x every option tuple and every "
-        "(rows, nulls) shape x read {{default, categories=[]}} (feature `read`). BOUND: rows <= 8193, "
+        "(rows, nulls) shape x read {{default, categories=[]}} (feature `read`); plus text / bytes cells and string category labels with "
+        "NUL characters at the end / start / middle, several trailing NULs, only NULs, empty cells, blanks (dtypes "
+        "'<str|string|object_str|bytes|cat[str]|cat[str,unsorted]>+nul') x every option tuple and shape. BOUND: rows <= 8193, "
         "<= 8 columns, the listed dtypes/values only. A case is distinct by (dtype, rows, nulls, index, option "
         "tuple, real page count); non-trivial when rows > 0 and the write did not raise.")
 
@@ -60,6 +67,52 @@ CONTRACT_INDEX = ("ensure(write(path, df, **options)): the frame read back has t
 RULE_INDEX = ("the index clause of the same cases as c01.roundtrip (evaluated whenever the write returned and the "
               "read returned a frame). Non-trivial when an index column was really stored: write_index=True, or "
               "write_index=None with a non-range index (int64 / named / str / datetime / 2-level multi).")
+
+
+# ---- frames of the classes that runtime.datasets does not know ------------------------------------------
+NUL = "+nul"
+NUL_TEXT_DTYPES = [d + NUL for d in ("str", "string", "object_str", "bytes", "cat[str]", "cat[str,unsorted]")]
+NUL_POOL = ["ab\x00", "ab", "\x00lead", "mid\x00dle", "tail\x00\x00", "", "trail ", "\x00", "é\x00", " ", "\x00\x00\x00",
+            "a\x00b\x00", "中\x00文", "plain"]
+
+
+def base_dtype(dt):
+    return dt[:-len(NUL)] if dt.endswith(NUL) else dt
+
+
+def nul_series(dtype, n, nulls):
+    base = base_dtype(dtype)
+    cells = [NUL_POOL[(k * 3 + k // len(NUL_POOL)) % len(NUL_POOL)] for k in range(n)]
+    if base.startswith("cat["):
+        labels = sorted(NUL_POOL[:7], key=lambda v: v.encode("utf8"))       # 'ab' and 'ab\x00' are two labels
+        if "unsorted" in base:
+            labels = labels[2:] + labels[:2][::-1]
+        codes = np.array([(i * 7 + (i >> 2)) % len(labels) for i in range(n)], dtype="int64")
+        s = pd.Series(pd.Categorical.from_codes(codes, categories=pd.Index(labels, dtype=object)))
+    elif base == "bytes":
+        s = pd.Series([c.encode("utf8") for c in cells], dtype=object)
+    else:
+        s = pd.Series(cells, dtype={"object_str": object}.get(base, base))
+    m = D.null_mask(n, nulls)
+    if m.any():
+        if base in ("object_str", "bytes"):
+            s = s.copy()
+            s[m] = None
+        else:
+            s = s.mask(m)
+    s.name = "x"
+    return s
+
+
+def frame_of(features):
+    """the input frame of a case (runtime.datasets, or one of the local classes)"""
+    if features["dtype"].endswith(NUL):
+        return pd.DataFrame({"x": nul_series(features["dtype"], features["rows"], features.get("nulls", "none"))})
+    return D.frame_from_features(features)
+
+
+def derived(features):
+    return D.derived_features(dict(features, dtype=base_dtype(features["dtype"])))
 
 
 # ---- oracle: comparison under the documented canonical forms -----------------------------------------
@@ -305,7 +358,7 @@ def checked_write_factory(fp, verdict, features=None):
 def run_case(fp, features, scratch):
     """Execute one case.  -> dict(status in ok|write_raised|fail, cells, index, what, pages, evaluations);
     cells / index = None (clause holds) or what differs."""
-    df = D.frame_from_features(features)
+    df = frame_of(features)
     kwargs, globs = D.bind_options(features, df)
     path = os.path.join(scratch, "t.parq")
     verdict = {}
@@ -324,7 +377,7 @@ def run_case(fp, features, scratch):
             shutil.rmtree(path, ignore_errors=True)
         elif os.path.exists(path):
             os.remove(path)
-    kinds = D.derived_features(features)["kinds"].split(",")
+    kinds = derived(features)["kinds"].split(",")
     res["layout"] = D.layout_feature(df, kwargs, globs, kinds)
     if "pages" in verdict:
         res["pages"] = D.pages_class(verdict["pages"])
@@ -377,6 +430,18 @@ def enumerate_cases(tier, seed=0):
         for k, s in enumerate(shapes):
             for r, read in enumerate(("default", "categories=[]")):
                 cases.append({**s, **opts[(2 * k + r + 3 * di) % len(opts)], "read": read})
+    # text / bytes cells and categorical labels with NUL characters, empty cells, blanks
+    nrows = D.SMALL_ROWS if tier == "quick" else D.ROWS
+    for di, dtype in enumerate(NUL_TEXT_DTYPES):
+        shapes = [{"dtype": dtype, "rows": n, "nulls": p, "index": "range"}
+                  for n, p in D._single_shapes(base_dtype(dtype), nrows)]
+        roomy = [s for s in shapes if s["rows"] >= 7]
+        for k, o in enumerate(opts):
+            pool = roomy if (o["pages"] > 1 or o["rgo"] in ("int", "list")) else shapes
+            cases.append({**pool[(k * 7 + di) % len(pool)], **o})
+        for k, s in enumerate(shapes):
+            for r in range(2):
+                cases.append({**s, **opts[(2 * k + r + 3 * di) % len(opts)]})
     for s in specs:
         if s["dtype"] in D.MIXED and s["index"] == "range":
             for o in opts:
@@ -393,7 +458,7 @@ def enumerate_cases(tier, seed=0):
     # de-duplicate, keep order
     out, seen = [], set()
     for c in cases:
-        c.update(D.derived_features(c))
+        c.update(derived(c))
         key = tuple(sorted((k, str(v)) for k, v in c.items()))
         if key not in seen:
             seen.add(key)
@@ -408,9 +473,9 @@ import os, sys, shutil, tempfile, warnings
 sys.path.insert(0, "/verif")
 import fastparquet
 from runtime import datasets as D
-from runtime.c01_roundtrip import case_mismatch, read_back
+from runtime.c01_roundtrip import case_mismatch, read_back, frame_of
 features = {features!r}
-df = D.frame_from_features(features)
+df = frame_of(features)
 kwargs, globs = D.bind_options(features, df)
 d = tempfile.mkdtemp(prefix="verif-replay-")
 VIOLATED = False
